@@ -7,7 +7,7 @@ import numpy as np
 from harness import common as C
 from harness import eofgen as G
 
-ANCHORS = ["T3", "T3b", "T4", "T5eof", "T5hil", "T7chain", "T7inplace", "T7hist"]
+ANCHORS = ["T3", "T3b", "T4", "T5eof", "T5hil", "T7chain", "T7inplace", "T7hist", "T9text"]
 MODELS = ["ScalerCase", "EofCase", "HilbertCase"]
 RULE = ("scaler: all 16 flag/weight combinations x random shapes and scales; models: EOF/ComplexEOF/HilbertEOF (and the CPCCA family) with all "
         "modes kept x flags x weights/coslat; arbitrary score arrays with arbitrary sample coordinates for transform o inverse; "
